@@ -159,7 +159,7 @@ def prove(built, fn, verbose=False, trace=False, keep=False, case=None):
     if rc != 0:
         res['status'] = 'undecided'; res['reason'] = 'goto-instrument failed: ' + (se or so)[-1500:]
         return res
-    flags = list(CBMC_CHECKS) + list(sp.flags)
+    flags = [f for f in CBMC_CHECKS if f not in cfg.get('drop_checks', [])] + list(sp.flags)
     flags = [f for f in flags if ('--no' + f[1:]) not in sp.flags and not f.startswith('--no-')]
     res['checker_cmd'] = 'goto-cc --function harness_%s | goto-instrument --dfcc harness_%s --enforce-contract %s %s%s| cbmc %s (postconditions solved one per solver instance, the remaining obligations together)' % (
         fn, fn, fn, ''.join('--replace-call-with-contract %s ' % g for g in replaced), '--apply-loop-contracts ' if loops_needed else '', ' '.join(flags))
@@ -223,7 +223,7 @@ def prove(built, fn, verbose=False, trace=False, keep=False, case=None):
     if any('ignoring' in m for m in msgs):
         res['status'] = 'undecided'; res['reason'] = 'solver ignored a quantifier: ' + '; '.join(m for m in msgs if 'ignoring' in m)[:300]
         return res
-    nstep = 0
+    nstep = 0; unknown = 0
     for p in results:
         name = p.get('property', ''); desc = p.get('description', ''); st = p.get('status')
         line = int(p.get('sourceLocation', {}).get('line', 0) or 0)
@@ -240,12 +240,17 @@ def prove(built, fn, verbose=False, trace=False, keep=False, case=None):
             res['discharged'] += 1
             for t in tags:
                 res['tags'][t][1] += 1
+        elif st != 'FAILURE':
+            unknown += 1          # UNKNOWN / ERROR: the solver did not decide this obligation
         else:
             cl = built.model.clauses.get(line)
             res['failed'].append({'property': name, 'description': desc, 'line': line, 'status': st, 'tags': tags,
                                   'clause': cl['text'] if cl else None, 'spec': cl['src'] if cl else None,
                                   'file': p.get('sourceLocation', {}).get('file')})
     res['time_s'] = round(time.time() - t0, 2)
+    if unknown:
+        res['status'] = 'undecided'; res['reason'] = '%d obligations were left undecided (status UNKNOWN) by cbmc%s' % (unknown, '; %d failed: %s' % (len(res['failed']), res['failed'][0]['description'][:120]) if res['failed'] else '')
+        return res
     if loops_needed and nstep == 0:
         res['status'] = 'undecided'; res['reason'] = 'loop contracts were not applied (no loop_invariant_step obligations)'
         return res
